@@ -1052,25 +1052,31 @@ Proof. destruct k; try congruence; intros _ _; reflexivity. Qed.
 (* DISCONNECT *)
 Record dom_disconnect (p : pkt) : Prop := {
   ddi_fixed : getN (M F_fixed) p = ctor_fixed KDisconnect;
-  ddi_fields : fields_valid [(M F_reasonCode, U8)] p;
+  ddi_fields : fields_valid ((M F_reasonCode, U8) :: refs_of disconnect_map) p;
   ddi_ups : Forall up_ok (uprops p);
   ddi_size : remaining_ok KDisconnect p
 }.
 
+Lemma disconnect_map_ok : forallb (entry_okb false) disconnect_map = true
+  /\ nodupb_N (map eid disconnect_map) = true /\ nodup_refs disconnect_map = true.
+Proof. vm_compute. repeat split. Qed.
+
 Theorem disconnect_roundtrip p : dom_disconnect p -> roundtrip KDisconnect p.
 Proof.
   intros [Hfx Hf Hups Hsize].
-  destruct (reason_section KDisconnect [] eq_refl eq_refl (conj eq_refl (conj eq_refl eq_refl)) eq_refl eq_refl
+  destruct (reason_section KDisconnect disconnect_map eq_refl eq_refl disconnect_map_ok eq_refl eq_refl
               p _ eq_refl Hf Hups Hsize) as [body [p' [Evh [Hdec [Hag Hu]]]]].
   rewrite Hfx in Hdec.
   apply (roundtrip_intro KDisconnect p disconnect_vh body (setf (M F_fixed) (VN (ctor_fixed KDisconnect)) zero_pkt) p');
     try discriminate; try assumption.
   - reflexivity.
   - rewrite Hfx. reflexivity.
-  - apply agree_all_of in Hag. cbn [agree_all getf refs_of map] in Hag. split_ands.
+  - apply agree_all_of in Hag. unfold refs_of, disconnect_map in Hag.
+    cbn [agree_all getf map eref ewt fst snd] in Hag. split_ands.
     unfold snapshot, oN, oB, oS, getN, getB, getS, getf. rewrite Hu. rewrite_agree p'. reflexivity.
   - intros es Hes. injection Hes as <-.
-    apply vagree_all_of in Hag. cbn [vagree_all refs_of map] in Hag. split_ands.
+    apply vagree_all_of in Hag. unfold refs_of, disconnect_map in Hag.
+    cbn [vagree_all map eref ewt fst snd] in Hag. split_ands.
     unfold enc_disconnect, disconnect_vh, disconnect_body, disconnect_props, up.
     cbn [app encs_agree enc_agree live_agree cond_agree].
     repeat match goal with
